@@ -381,11 +381,14 @@ def run(chk):
   # 'variable' - applies)
   av = repo.func('rule_translate.RuleStructure.AllVariables')
   parts = set()
+  from sa import tables as _tables
   for c in walk_local(av.node):
     if isinstance(c, ast.Call) and call_tail(c) == 'AllMentionedVariables' and c.args:
-      d = dotted(c.args[0]) or ''
-      if d.startswith('self.'):
-        parts.add(d[5:])
+      # directly, or once per row of a literal table of the parts
+      for binding in _tables.table_bindings(av, c):
+        d = dotted(_tables.bound(c.args[0], binding)) or ''
+        if d.startswith('self.'):
+          parts.add(d[5:])
   need = {'select', 'vars_unification', 'constraints', 'unnestings'}
   chk.ob('C19-R1', need <= parts, None,
          'AllVariables() collects the variables of select, unifications, constraints and unnestings',
